@@ -2,6 +2,19 @@ module verifharness
 
 go 1.25.7
 
-require github.com/ipfs/boxo v0.0.0
+require (
+	github.com/ipfs/boxo v0.0.0
+	github.com/multiformats/go-multihash v0.2.3
+)
+
+require (
+	github.com/klauspost/cpuid/v2 v2.3.0 // indirect
+	github.com/mr-tron/base58 v1.3.0 // indirect
+	github.com/multiformats/go-varint v0.1.0 // indirect
+	github.com/spaolacci/murmur3 v1.1.0 // indirect
+	golang.org/x/crypto v0.54.0 // indirect
+	golang.org/x/sys v0.47.0 // indirect
+	lukechampine.com/blake3 v1.4.1 // indirect
+)
 
 replace github.com/ipfs/boxo => /repo
